@@ -33,10 +33,13 @@ FAMILIES = {
 FAMS = list(FAMILIES)
 MAXN = 9
 
-# over ALL hypergraphs on 4 nodes; quick leaves out the dearer ones (all 24 permutations instead of the generators ...)
+# over ALL hypergraphs on 4 nodes; quick leaves out the dearer invariants.  Invariance under the generators of
+# the permutation group over a universe closed under relabelling is invariance under every permutation; all 24
+# (6) permutations are nevertheless tried directly on the 3-node universe in thorough.
 HG_INV = {"quick": ["TypeOK", "CensusRelabelInvariant", "CensusIgnoresLarge", "ThreePassCover"],
-          "thorough": ["TypeOK", "CensusRelabelInvariant", "CensusRelabelInvariantAllPerms", "CensusIgnoresLarge",
-                       "CensusIgnoresSingletons", "CensusTotal", "ThreePassCover"]}
+          "thorough": ["TypeOK", "CensusRelabelInvariant", "CensusIgnoresLarge", "CensusIgnoresSingletons", "CensusTotal",
+                       "ThreePassCover"]}
+HG_INV_3 = ["TypeOK", "CensusRelabelInvariantAllPerms", "CensusRelabelInvariant", "CensusTotal", "ThreePassCover"]
 DIR_INV = ["TypeOK", "DirCanonUnique", "DirCanonRelabelInvariant", "DirCanonIsDefinition", "DirCensusIgnoresLarge"]
 
 
@@ -220,7 +223,7 @@ def hg_inputs(tier, rng):
         out.append(make_case("hg", 3, 4, edges, rng, next(fam), [rng.choice(others)], "all-4-node"))
         out.append(make_case("hg", 4, 4, edges, rng, next(fam), [rng.choice(others)] if m % 4 == 0 else [], "all-4-node"))
     # (ii) random hypergraphs on 5..7 nodes, sizes 1..6 (sizes above the order must be ignored)
-    for i in range(36 if tier == "quick" else 420):
+    for i in range(36 if tier == "quick" else 300):
         n = rng.choice([5, 6, 7])
         edges = []
         if i % 3 == 0:          # dense 2-node skeleton + a few larger hyperedges: the walk on 2-node hyperedges dominates
@@ -264,7 +267,7 @@ def dir_inputs(tier, rng):
         edges = [k3[j] for j in range(len(k3)) if m >> j & 1]
         out.append(make_case("dir", 3, 3, edges, rng, next(fam), [rng.choice(others)], "all-3-node"))
     # (ii) random directed hypergraphs on 4..7 nodes, 2..6 nodes per hyperedge, disjoint sources / targets
-    for i in range(60 if tier == "quick" else 700):
+    for i in range(60 if tier == "quick" else 500):
         n = rng.choice([4, 5, 6, 7])
         edges = []
         for _ in range(rng.randint(2, 11)):
@@ -395,26 +398,36 @@ def run(tier, seed):
     rng = random.Random(seed)
     specs = hg_inputs(tier, rng) + dir_inputs(tier, rng)
 
-    # design exploration runs beside the execution of the real code
+    # design exploration (two TLC runs side by side) runs beside the execution of the real code
     box = {}
+    parts = {"hg": Result("C11", tier, seed, "model_checking"), "dir": Result("C11", tier, seed, "model_checking")}
 
-    def design():
+    def design(kind, runs):
         if os.environ.get("C11_SKIP_EXPLORE"):      # code-independent part; skipped only by mutation self-tests
             return
         try:
-            explore(res, "hg", tier, module="MC_Motifs", invariants=HG_INV[tier],
-                    configs=[dict(n=4, maxw=1, batches=False, metaops=False, weighted=False)])
-            explore(res, "dir", tier, module="MC_Motifs", invariants=DIR_INV,
-                    configs=[dict(n=3, maxw=1, batches=False, metaops=False, weighted=False)])
+            for invariants, n in runs:
+                explore(parts[kind], kind, tier, module="MC_Motifs", invariants=invariants,
+                        configs=[dict(n=n, maxw=1, batches=False, metaops=False, weighted=False)])
         except BaseException as ex:
-            box["err"] = ex
-    th = threading.Thread(target=design)
-    th.start()
+            box[kind] = ex
+    ths = [threading.Thread(target=design, args=("hg", [(HG_INV[tier], 4)] + ([(HG_INV_3, 3)] if tier == "thorough" else []))),
+           threading.Thread(target=design, args=("dir", [(DIR_INV, 3)]))]
+    for th in ths:
+        th.start()
     logs = run_all(specs)
-    th.join()
-    if "err" in box:
-        raise box["err"]
     verdicts = validate(specs, logs)
+    for th in ths:
+        th.join()
+    for ex in box.values():
+        raise ex
+    for kind in ("hg", "dir"):
+        c = parts[kind].coverage
+        res.cov(states=c.get("states", 0), transitions=c.get("transitions", 0))
+        res.coverage.setdefault("explorations", []).extend(c.get("explorations", []))
+        for i in c.get("invariants", []):
+            if i not in res.coverage.setdefault("invariants", []):
+                res.coverage["invariants"].append(i)
     info = judge(res, specs, logs, verdicts)
     skipped = info.get("variants_skipped_container_error", 0)
     if skipped > 0.05 * sum(len(s["variants"]) for s in specs):
